@@ -120,6 +120,35 @@ func freeJobs(r *ev.Run) []job {
 			out = append(out, job{Name: c.Name, C: c, Depth: depth, Menu: menu, Weight: n * n * depth})
 		}
 	}
+	// rotations between sets of different sizes (the threshold is that of the set in force at the local observation)
+	for _, p := range [][2]int{{4, 1}, {4, 2}, {2, 4}, {1, 3}, {3, 2}, {7, 4}, {4, 7}} {
+		a, b := p[0], p[1]
+		sets := [][]int{rng(0, a), rng(0, b)}
+		obs := append(rng(0, 5), outsider)
+		if a+b > 10 {
+			obs = []int{1, 2, 3, 6, outsider}
+		}
+		c := proch.Config{Name: fmt.Sprintf("free-resize-%d-to-%d", a, b), Sets: sets, OwnKey: 0, Msgs: msgs()}
+		menu := func(nd *proch.Node, m *proch.Model, hist []proch.Event) []proch.Event {
+			var evs []proch.Event
+			for si := range sets {
+				if si != m.Cur {
+					evs = append(evs, proch.Event{Kind: "set", Set: si})
+				}
+			}
+			if len(nd.Pending) < 2 {
+				evs = append(evs, proch.Event{Kind: "msg", M: 0})
+			}
+			for i := range nd.Pending {
+				evs = append(evs, proch.Event{Kind: "lb", LB: i})
+			}
+			for _, g := range obs {
+				evs = append(evs, proch.Event{Kind: "obs", G: g, D: 0})
+			}
+			return evs
+		}
+		out = append(out, job{Name: c.Name, C: c, Depth: 7, Menu: menu, Weight: 40})
+	}
 	return out
 }
 
